@@ -5,7 +5,7 @@
    Tiers: T1 = characterisation for every assignment, T2 = every object is encoded (+ uniqueness of
    the encoding on the documented variables), T3 = classical satisfiability criterion. *)
 From Coq Require Import ZArith List Bool.
-From Cnfgen Require Import Sem Comb Linear IR FamTab Fam_php Fam_count Fam_subsetcard Fam_cliquecol Spec_C01.
+From Cnfgen Require Import Sem Comb Linear IR FamTab FamTabFacts Fam_php Fam_count Fam_subsetcard Fam_cliquecol Spec_C01.
 From Cnfgen Require Import Fam_php_Facts Fam_count_Facts Fam_subsetcard_Facts Fam_cliquecol_Facts C01_Main.
 Import ListNotations.
 Open Scope Z_scope.
@@ -54,6 +54,11 @@ Theorem C01_php_unsat_iff_more_pigeons m n : 0 <= m -> 0 <= n ->
 Proof. exact (php_plain_unsat_iff m n). Qed.
 Print Assumptions C01_php_unsat_iff_more_pigeons.
 
+(* the formula mentions the documented variables 1..m*n only *)
+Theorem C01_php_vars m n f o : irs_in_range (php_numvar m n) (php_ir m n f o).
+Proof. exact (php_in_range m n f o). Qed.
+Print Assumptions C01_php_vars.
+
 (* ===================== GraphPigeonholePrinciple ===================== *)
 Theorem C01_gphp_T1 a adj R f o : bip_wf adj R = true ->
   (cnf_sat a (to_cnf (gphp_ir adj R f o)) = true <-> graph_placement (len adj) R f o (gphp_sel a adj)) /\
@@ -89,6 +94,10 @@ Theorem C01_gphp_sat_iff_matching adj R f : bip_wf adj R = true ->
 Proof. exact (gphp_sat_iff_final adj R f). Qed.
 Print Assumptions C01_gphp_sat_iff_matching.
 
+Theorem C01_gphp_vars adj R f o : irs_in_range (gphp_numvar adj) (gphp_ir adj R f o).
+Proof. exact (gphp_in_range adj R f o). Qed.
+Print Assumptions C01_gphp_vars.
+
 (* ===================== BinaryPigeonholePrinciple ===================== *)
 Theorem C01_bphp_T1 a m n : 1 <= n ->
   (cnf_sat a (to_cnf (bphp_ir m n)) = true <-> binary_placement m n (bphp_hole a n)) /\
@@ -107,6 +116,12 @@ Theorem C01_bphp_sat_iff m n : 0 <= m -> 1 <= n ->
   ((exists a, opb_sat a (to_opb (bphp_ir m n)) = true) <-> m <= n).
 Proof. exact (bphp_sat_iff_final m n). Qed.
 Print Assumptions C01_bphp_sat_iff.
+
+Theorem C01_bphp_unique a b m n : 0 <= m -> 1 <= n ->
+  (forall i, 1 <= i <= m -> bphp_hole a n i = bphp_hole b n i) ->
+  forall v, 1 <= v <= bphp_numvar m n -> a v = b v.
+Proof. exact (bphp_unique a b m n). Qed.
+Print Assumptions C01_bphp_unique.
 
 (* D30: the docstring declares pigeons, holes >= 0 valid; the code (and the faithful model) raise
    ValueError below 1.  The full statement is refuted, the partial one is what holds. *)
@@ -151,6 +166,14 @@ Theorem C01_rphp_sat_iff m r n : 0 <= m -> 0 <= r -> 0 <= n ->
 Proof. exact (rphp_sat_iff_final m r n). Qed.
 Print Assumptions C01_rphp_sat_iff.
 
+Theorem C01_rphp_unique a b m r n : 0 <= m -> 0 <= r -> 0 <= n ->
+  (forall u v, 1 <= u <= m -> 1 <= v <= r -> rphp_P a r u v = rphp_P b r u v) ->
+  (forall v w, 1 <= v <= r -> 1 <= w <= n -> rphp_Q a m r n v w = rphp_Q b m r n v w) ->
+  (forall v, 1 <= v <= r -> rphp_S a m r n v = rphp_S b m r n v) ->
+  forall x, 1 <= x <= rphp_numvar m r n -> a x = b x.
+Proof. exact (rphp_unique a b m r n). Qed.
+Print Assumptions C01_rphp_unique.
+
 (* ===================== CountingPrinciple ===================== *)
 Theorem C01_count_T1 a M p :
   (cnf_sat a (to_cnf (count_ir M p)) = true <-> partition_of M (count_sel a M p)) /\
@@ -183,6 +206,10 @@ Theorem C01_count_sat_iff M p : 0 <= M -> 1 <= p ->
 Proof. exact (count_sat_iff_final M p). Qed.
 Print Assumptions C01_count_sat_iff.
 
+Theorem C01_count_vars M p : irs_in_range (count_numvar M p) (count_ir M p).
+Proof. exact (count_in_range M p). Qed.
+Print Assumptions C01_count_vars.
+
 (* ===================== PerfectMatchingPrinciple ===================== *)
 Theorem C01_matching_T1 a n es : graph_wf n es = true ->
   (cnf_sat a (to_cnf (matching_ir n es)) = true <-> perfect_matching n (matching_sel a es)) /\
@@ -207,6 +234,10 @@ Theorem C01_matching_sat_iff n es : graph_wf n es = true ->
   ((exists a, opb_sat a (to_opb (matching_ir n es)) = true) <-> exists obj, perfect_matching n (filter obj es)).
 Proof. exact (matching_sat_iff_final n es). Qed.
 Print Assumptions C01_matching_sat_iff.
+
+Theorem C01_matching_vars n es : irs_in_range (matching_numvar es) (matching_ir n es).
+Proof. exact (matching_in_range n es). Qed.
+Print Assumptions C01_matching_vars.
 
 (* ===================== SubsetCardinalityFormula ===================== *)
 Theorem C01_subsetcard_T1 a adj R eq :
@@ -236,6 +267,10 @@ Theorem C01_subsetcard_sat_iff adj R eq : bip_wf adj R = true ->
 Proof. exact (subsetcard_sat_iff_final adj R eq). Qed.
 Print Assumptions C01_subsetcard_sat_iff.
 
+Theorem C01_subsetcard_vars adj R eq : irs_in_range (subsetcard_numvar adj) (subsetcard_ir adj R eq).
+Proof. exact (subsetcard_in_range adj R eq). Qed.
+Print Assumptions C01_subsetcard_vars.
+
 (* ===================== CliqueColoring ===================== *)
 Theorem C01_cliquecol_T1 a n k c : 0 <= n -> 0 <= k -> 0 <= c ->
   (cnf_sat a (to_cnf (cliquecol_ir n k c)) = true <-> clique_and_colouring n k c (cc_E a n) (cc_Q a n) (cc_C a n k c)) /\
@@ -262,6 +297,14 @@ Theorem C01_cliquecol_sat_iff n k c : 0 <= n -> 0 <= k -> 0 <= c ->
   ((exists a, opb_sat a (to_opb (cliquecol_ir n k c)) = true) <-> k <= n /\ k <= c /\ (n = 0 \/ 1 <= c)).
 Proof. exact (cliquecol_sat_iff_final n k c). Qed.
 Print Assumptions C01_cliquecol_sat_iff.
+
+Theorem C01_cliquecol_unique a b n k c : 0 <= n -> 0 <= k -> 0 <= c ->
+  (forall e, In e (cc_E a n) <-> In e (cc_E b n)) ->
+  (forall i u, 1 <= i <= k -> 1 <= u <= n -> cc_Q a n i u = cc_Q b n i u) ->
+  (forall v l, 1 <= v <= n -> 1 <= l <= c -> cc_C a n k c v l = cc_C b n k c v l) ->
+  forall x, 1 <= x <= cc_numvar n k c -> a x = b x.
+Proof. exact (cliquecol_unique a b n k c). Qed.
+Print Assumptions C01_cliquecol_unique.
 
 (* ===================== the driver's pruned CNF rendering is the CNF rendering ===================== *)
 From Cnfgen Require Import FamFast FamFastFacts.
